@@ -46,7 +46,7 @@ PROPS["C03"] = {
     "assumptions": [],
 }
 PROPS["C04"] = {
-    "rules": [r_transform.rule_CANCEL, r_sync.rule_T1_sync, r_sync.rule_S3, r_sync.rule_S1, r_sync.rule_S9, r_taskdb.rule_R6, r_servers.rule_K7, r_storage.rule_D],
+    "rules": [r_transform.rule_CANCEL, r_sync.rule_T1_sync, r_sync.rule_S3, r_sync.rule_S1, r_sync.rule_S9, r_taskdb.rule_R6, r_servers.rule_K7, r_storage.rule_D, r_sync.rule_S11],
     "explanation": "D2-D4: on SQLite `dropped on error` is a real rollback - one rusqlite transaction per StorageTxn, committed only by commit, drop behaviour untouched, and every proxied call returns the actor's verdict; R6: the replica-level sync rebuilds the working set after every successful TaskDb sync, also one that exchanged nothing (the repeat of a sync interrupted between its two transactions); K7: the object-store server keeps the uploaded version when the outcome of the swap is unknown (`effect then lost reply` on the one request that makes a version the head), otherwise the repeated sync is out of sync for good; TR/CANCEL: identical operations cancel to (None, None).",
     "not_decided": "per-crash-point behaviour",
     "assumptions": [],
@@ -58,14 +58,14 @@ PROPS["C02"] = {
     "assumptions": [],
 }
 PROPS["C12"] = {
-    "rules": [r_sync.rule_N1, r_sync.rule_N2, r_storage.rule_N3, r_storage.rule_N3_overrides, r_storage.rule_N4, r_storage.rule_N5],
-    "explanation": "N1 snapshot only with nothing pending and labelled with the accepted id; N2 urgency gate table and SnapshotUrgency declaration order; N3 both is_empty defaults check tasks, base version and unsynced operations, and snapshots are fetched/applied only on that outcome; N4 apply_snapshot writes every decoded task and sets the base version; N5 codec pairing.",
+    "rules": [r_sync.rule_N1, r_sync.rule_N2, r_storage.rule_N3, r_storage.rule_N3_overrides, r_storage.rule_N4, r_storage.rule_N5, r_storage.rule_Q6, r_sync.rule_S11],
+    "explanation": "Q6: make_snapshot at the end of a sync sees the versions the same transaction applied, also on the in-memory storage; N1 snapshot only with nothing pending and labelled with the accepted id; N2 urgency gate table and SnapshotUrgency declaration order; N3 both is_empty defaults check tasks, base version and unsynced operations, and snapshots are fetched/applied only on that outcome; N4 apply_snapshot writes every decoded task and sets the base version; N5 codec pairing.",
     "not_decided": "equality of snapshot content with the chain replay for all histories and Unicode contents",
     "assumptions": [],
 }
 PROPS["C05"] = {
-    "rules": [lambda F, R: r_txn.rule_T1(F, R, only=("commit_operations",)), r_taskdb.rule_L1, r_taskdb.rule_A1, r_storage.rule_D, r_storage.rule_Q1],
-    "explanation": "Q1: on SQLite each StorageTxn call of the batch reaches the storage method of the same name with the same arguments (proxy and actor tables agree); T1 on TaskDb::commit_operations (one transaction, commit last); L1 every operation logged in order unconditionally from the applied `operations`; D2-D4 for the SQLite side of `whole batch or none`: one real transaction, committed only by commit, and every proxied call (not only commit) returns the actor thread's reply, so a rejected write stops the batch; A1 also bounds how entries leave the write cache (one key at a time or a complete drain); A1 dispatch table of apply_operations (cache invalidation on create/delete, update through the cache, final flush).",
+    "rules": [lambda F, R: r_txn.rule_T1(F, R, only=("commit_operations",)), r_taskdb.rule_L1, r_taskdb.rule_A1, r_storage.rule_D, r_storage.rule_Q1, r_storage.rule_Q6],
+    "explanation": "Q6: reads inside the committing transaction see its earlier writes on the in-memory storage; Q1: on SQLite each StorageTxn call of the batch reaches the storage method of the same name with the same arguments (proxy and actor tables agree); T1 on TaskDb::commit_operations (one transaction, commit last); L1 every operation logged in order unconditionally from the applied `operations`; D2-D4 for the SQLite side of `whole batch or none`: one real transaction, committed only by commit, and every proxied call (not only commit) returns the actor thread's reply, so a rejected write stops the batch; A1 also bounds how entries leave the write cache (one key at a time or a complete drain); A1 dispatch table of apply_operations (cache invalidation on create/delete, update through the cache, final flush).",
     "not_decided": "equivalence of the write-cached batch application with one-at-a-time application for every batch; the replica invariant as a state predicate",
     "assumptions": [],
 }
@@ -76,7 +76,7 @@ PROPS["C07"] = {
     "assumptions": [],
 }
 PROPS["C15"] = {
-    "rules": [r_taskdb.rule_R1, r_taskdb.rule_R2, r_taskdb.rule_R5, r_taskdb.rule_R3, r_taskdb.rule_R4, lambda F, R: r_txn.rule_T1(F, R, only=("rebuild_working_set",)), r_taskdb.rule_R6],
+    "rules": [r_taskdb.rule_R1, r_taskdb.rule_R2, r_taskdb.rule_R5, r_taskdb.rule_R3, r_taskdb.rule_R4, lambda F, R: r_txn.rule_T1(F, R, only=("rebuild_working_set",)), r_taskdb.rule_R6, r_taskdb.rule_R7, r_taskdb.rule_R8],
     "explanation": "R1 keep/blank/drop table of one scan iteration of the working-set rebuild (all 7 rows); R2 slot 0 blank, scan from 1, newcomers = all tasks not seen and wanted, appended after the scan; R3 predicate truth tables (status in {pending, recurring}; commit trigger); R4 constant-false renumber after sync and undo; T1.",
     "not_decided": "the resulting numbering as a function of arbitrary prior working sets over sequences of rebuilds; that the write-back makes storage equal to the computed vector",
     "assumptions": [],
@@ -94,8 +94,8 @@ PROPS["C06"] = {
     "assumptions": ["rusqlite's default drop behaviour is rollback", "SQLite's atomic commit in WAL/rollback-journal modes"],
 }
 PROPS["C16"] = {
-    "rules": [r_storage.rule_Q1, r_storage.rule_Q2, r_storage.rule_Q3, r_storage.rule_Q4, r_storage.rule_N3, r_storage.rule_N3_overrides],
-    "explanation": "Q1 proxy/actor tables agree (21 methods x 22 messages, crossed wires compile); Q2 every modifying SQL statement and commit dominated by check_write_access, schema upgrade only read-write; Q3 in-memory add_to_working_set returns the stored index; N3 sibling is_empty defaults agree.",
+    "rules": [r_storage.rule_Q1, r_storage.rule_Q2, r_storage.rule_Q3, r_storage.rule_Q4, r_storage.rule_N3, r_storage.rule_N3_overrides, r_storage.rule_Q6, r_storage.rule_Q5],
+    "explanation": "Q6: the in-memory transaction reads through its own view (read-your-writes), as the SQLite transaction does by construction; Q1 proxy/actor tables agree (21 methods x 22 messages, crossed wires compile); Q2 every modifying SQL statement and commit dominated by check_write_access, schema upgrade only read-write; Q3 in-memory add_to_working_set returns the stored index; N3 sibling is_empty defaults agree.",
     "not_decided": "equality of results for all call sequences, persistence across reopen, legacy-schema upgrades as data transformations",
     "assumptions": [],
 }
@@ -124,14 +124,14 @@ PROPS["C11"] = {
     "assumptions": [],
 }
 PROPS["C19"] = {
-    "rules": [r_task.rule_M1, r_task.rule_M2, r_task.rule_M3, r_task.rule_M4, r_task.rule_M5, r_task.rule_M6, r_task.rule_M7, r_task.rule_M8, r_task.rule_M9],
-    "explanation": "M1 single writer of the task map / single constructor of Operations; M2 TaskData::update records the looked-up previous value (lookup precedes the change), delete records the old task; M3 every public Task mutator funnels into TaskData::update; M4 `modified` refresh table of set_value (exhaustive, 6 paths) incl. the once-per-session flag; M5 status/end table of set_status (8 rows); M6 reserved-name guards dominate the writes; M7 writer/reader key-prefix vocabulary and timestamp encoding; M8 synthetic-tag table and pending-gated dependency edges.",
+    "rules": [r_task.rule_M1, r_task.rule_M2, r_task.rule_M3, r_task.rule_M4, r_task.rule_M5, r_task.rule_M6, r_task.rule_M7, r_task.rule_M8, r_task.rule_M9, r_taskdb.rule_A1, r_task.rule_M10],
+    "explanation": "A1: what the mutators recorded is what the commit stores - the batch application writes every cached update (also when a Create for the same task follows in the batch); M1 single writer of the task map / single constructor of Operations; M2 TaskData::update records the looked-up previous value (lookup precedes the change), delete records the old task; M3 every public Task mutator funnels into TaskData::update; M4 `modified` refresh table of set_value (exhaustive, 6 paths) incl. the once-per-session flag; M5 status/end table of set_status (8 rows); M6 reserved-name guards dominate the writes; M7 writer/reader key-prefix vocabulary and timestamp encoding; M8 synthetic-tag table and pending-gated dependency edges.",
     "not_decided": "agreement of the held object with storage after commit for all mutator sequences (follows from M1-M3 + C05, but is a statement about sequences)",
     "assumptions": [],
 }
 PROPS["C20"] = {
-    "rules": [r_task.rule_E, r_transform.rule_DELETE_WINS, r_task.rule_M1, r_storage.rule_N3],
-    "explanation": "E1 expiration predicate (status == Deleted's storage string, `modified` parsed, strictly older than now - Duration::days(180)); E2 purge through TaskData::delete + commit_operations (ordinary synchronised deletions); TR/DEL delete beats a concurrent update in both argument orders (exhaustive over the abstract space); M1 operations are only built by TaskData.",
+    "rules": [r_task.rule_E, r_transform.rule_DELETE_WINS, r_task.rule_M1, r_storage.rule_N3, r_storage.rule_Q6, r_sync.rule_S9, r_sync.rule_S10],
+    "explanation": "S9/S10: the expiry deletions survive a rejected push and keep their order; Q6: a snapshot made in the sync that pulled the deletion does not resurrect the task; E1 expiration predicate (status == Deleted's storage string, `modified` parsed, strictly older than now - Duration::days(180)); E2 purge through TaskData::delete + commit_operations (ordinary synchronised deletions); TR/DEL delete beats a concurrent update in both argument orders (exhaustive over the abstract space); M1 operations are only built by TaskData.",
     "not_decided": "the multi-replica outcome after sync as a property of histories",
     "assumptions": [],
 }
